@@ -38,8 +38,10 @@ var Check = &ev.Check{
 		"fault = the 4 bytes at every offset (a superset of every position where the format carries a length/count) set to each of {2^16, 2^20+1, 2^24, 2^27, 2^28, 2^28+1, 2^29, 2^29+1, 2^30, 2^30+1, 2^31-1} (values above 2^24 only for (API, position kind) classes that stayed within bounds at 2^24, so that violating classes are found without killing the worker; 2^28..2^30 are where count*width wraps 32 bits); " +
 		"x 15 decoding APIs (Decode+force, Decode+wire.*ToSlice, Decode+EvaluateValue, ReadValue, primitive stream walk, Skip seek/stream, DecodeEnveloped, ReadEnvelopeBegin, DecodeRequest, ReadRequest, frame.Reader.Read, generated FromWire(Decode) and generated Decode for 4 plugin/api types). " +
 		"Oracle per call: TotalAlloc delta <= 12 MiB + 64*N and reader calls <= 16 + 4*N. A case is (message, offset, magnitude); non-trivial = the mutated window overlaps a real length/count field of the reference encoding.",
-	Run:          run,
-	Budget:       func(t string) time.Duration { return map[string]time.Duration{"quick": 4 * time.Minute, "thorough": 20 * time.Minute}[t] },
+	Run: run,
+	Budget: func(t string) time.Duration {
+		return map[string]time.Duration{"quick": 4 * time.Minute, "thorough": 20 * time.Minute}[t]
+	},
 	CaseDeadline: 60 * time.Second,
 	MemLimitKB:   5 << 20,
 	CrashSig: func(kind, desc, stderr string) (string, bool) {
